@@ -133,6 +133,39 @@ def sent : List Ev → List Nat
   | .send _ c :: es => c :: sent es
   | _ :: es => sent es
 
+/-! #### operations that are retried after a failed attempt
+
+`mbx_send` first reads the status of the out mailbox, fetches mail nobody asked for, checks that an out
+mailbox is configured — and only then takes a counter and writes the message.  An attempt of an operation
+that fails at one of these points, when it is about to send its (k+1)-th message, has sent k messages: it
+is a critical section with k exchanges (`async with` releases the lock on the exception).  The caller (or
+anybody else) then tries again. -/
+
+/-- one mailbox operation needing `n` exchanges, with the exchange counts of the attempts that failed first -/
+structure Op where
+  n : Nat
+  fails : List Nat
+deriving Repr, DecidableEq
+
+/-- the critical sections an operation amounts to -/
+def Op.sections (o : Op) : List Nat := o.fails ++ [o.n]
+
+def opSections (ops : List Op) : List Nat := ops.flatMap Op.sections
+
+/-- the messages that really left for an operation -/
+def Op.messages (o : Op) : Nat := o.fails.sum + o.n
+
+def opMessages (ops : List Op) : Nat := (ops.map Op.messages).sum
+
+/-- `.send` steps in a continuation -/
+def sends : List Step → Nat
+  | [] => 0
+  | .send :: r => sends r + 1
+  | _ :: r => sends r
+
+/-- messages the first `n` tasks still have to send -/
+def tot (n : Nat) (f : Nat → List Step) : Nat := ((List.range n).map fun t => sends (f t)).sum
+
 /-! ### (c) processes sharing the lock file -/
 
 inductive PStep where
